@@ -335,7 +335,11 @@ def sum_(*args):
     return sum(data)
 
 
-def sumif(rng, criteria, sum_range=None):
+# an optional argument which was not given (None is an empty cell)
+_NOT_GIVEN = object()
+
+
+def sumif(rng, criteria, sum_range=_NOT_GIVEN):
     # Excel reference: https://support.microsoft.com/en-us/office/
     #   SUMIF-function-169b8c99-c05c-4483-a712-1697a653039b
 
@@ -347,7 +351,7 @@ def sumif(rng, criteria, sum_range=None):
     #  beginning cell, and then including cells that correspond in size and
     #  shape to the range argument.
 
-    if sum_range is None:
+    if sum_range is _NOT_GIVEN:
         sum_range = rng
     return sumifs(sum_range, rng, criteria)
 
